@@ -347,13 +347,14 @@ pub fn run(ctx: &mut Ctx) -> (String, Value, Vec<String>) {
             Err(None) => ctx.violation(&format!("{name}::steps_iter#does-not-terminate"), &format!("{:?}: no answer within 20 s", spec), "steps-arr", json!({"spec": spec, "h": h})),
         }
     }
-    // "over an arbitrarily long horizon": a far window for every leaf model and a sample of the
-    // compositions (thorough tier)
+    // "over an arbitrarily long horizon": a far window ((700, 740] quick, (2500, 2560] thorough)
+    // for every leaf model and a sample of the compositions
     let mut far = 0u64;
-    if !ctx.quick() {
-        let (f0, w) = (2500u64, 60u64);
+    {
+        let (f0, w) = if ctx.quick() { (700u64, 40u64) } else { (2500u64, 60u64) };
+        let nleaf = leaf_menu(ctx.quick()).len();
         for (i, spec) in specs.iter().enumerate() {
-            let leaf = i < leaf_menu(false).len();
+            let leaf = i < nleaf;
             if !leaf && i % 23 != 0 {
                 continue;
             }
